@@ -280,7 +280,7 @@ RULE = ('one config = one derive request (shape x per-field {plain u8, plain Mod
         'inside a config nothing is sampled: both operands (and the triple for the laws) are arbitrary values incl. the variant, '
         'decided by CBMC/CaDiCaL. A config counts as non-trivial when every harness passed and every cover witness '
         '(oracle-equal pair, oracle-unequal pair, transitive chain) was SATISFIED.')
-BOUNDS = dict(max_fields='3 (quick), 4 (thorough)', max_variants='3 (quick), 4 (thorough)', field_types=['u8', 'Mod4', 'Nan (== not reflexive; 5 configs without any method)'], methods=['eq_le (asymmetric)', 'eq_half (lawful)'],
+BOUNDS = dict(max_fields='3 (quick), 4 (thorough); plus 4-5 field runs of ignored fields and three 13-field shapes', max_variants='3 (quick), 4 (thorough)', field_types=['u8', 'Mod4', 'Nan (== not reflexive; 5 configs without any method)', 'a user type named PhantomData', 'core PhantomData<u16> with a method'], methods=['eq_le (asymmetric)', 'eq_half (lawful)'],
               outside=['>3 fields or variants', 'field types other than u8/Mod4/Nan', 'unions (C20)'])
 ASSUME = ['Kani 0.68 / CBMC 6.11 / CaDiCaL; rustc nightly-2026-08-21 x86_64 dev profile',
           'oracle written from the config by vk/p_c02.py, never from the expansion',
